@@ -18,9 +18,9 @@ in `dead`, and lets the indexes map a key to an id.  `deref` follows an id.
 * the code modelled is the tree after the repairs 11eb866 (F5), 6deb704 (F6),
   9985548 (F7), 429fb4b (hostname index in `rmDynamicLease`) and 5958d07
   (`AddStaticLease` stores on error).  Still in the code, hence in the model:
-  `commitName` (R3), `resetLoop` renaming unnamed leases (R4), `copyInto` on
-  hardware addresses of different lengths (R5), `releaseLoop` ranging over the
-  slice header it is shrinking.
+  `commitName` (R3), `resetLoop` renaming unnamed leases (R4), `releaseLoop`
+  ranging over the slice header it is shrinking.  Also followed: a691f53 (R5,
+  a recycled lease gets a clone of the new hardware address).
 -/
 import AGH.Model.Bytes
 namespace AGH.C10
@@ -116,9 +116,6 @@ def validHost (O : Oracle) (cli : Bytes) (ip : Nat) : Bytes :=
   let h := (O.norm cli).getD []
   let h := if h = [] then genHost ip else h
   if O.valid h then h else []
-
-/-- Go's `copy(dst, src)` on byte slices, result is the new `dst`. -/
-def copyInto (dst src : Bytes) : Bytes := src.take dst.length ++ dst.drop src.length
 
 def Lease.toDisk (l : Lease) : DLease :=
   { mac := l.mac, ip := l.ip, host := l.host, static := l.static, exp := if l.static then 0 else l.exp }
@@ -250,7 +247,8 @@ def allocateLease (c : Conf) (mac : Bytes) (s : State) : State × Option (Option
     match findExpired s.now s.leases with
     | none => (s, some none)
     | some l =>
-      (s.update l.id (fun x => { x with mac := copyInto x.mac mac }), some (some { l with mac := copyInto l.mac mac }))
+      -- `s.leases[i].HWAddr = slices.Clone(mac)`
+      (s.update l.id (fun x => { x with mac := mac }), some (some { l with mac := mac }))
   | some ip =>
     let l : Lease := { id := s.nextId, mac := mac, ip := ip, host := [], static := false, exp := 0 }
     match addLease c l s.fresh.2 with
